@@ -58,20 +58,6 @@ Definition run_spec_lenient (T : tables) (r : root) (input : list Z) : string :=
   end.
 
 (** pretty printer: the model decodes, converts its events to printer events and prints rows *)
-Definition find_prim (ps : list prim) (n : string) : option prim :=
-  find (fun p => String.eqb (pname p) n) ps.
-Definition to_pev (ps : list prim) (a : action) : pev :=
-  match a with
-  | Ev e =>
-      match ety e, evalue e with
-      | TyList en, _ => PList (epath e) en (String.eqb en "BYTE")
-      | TyN n, Some z => match find_prim ps n with Some p => PPrim (epath e) p z | None => PStruct (epath e) n end
-      | TyN n, None => PStruct (epath e) n
-      | TyEnc n, _ => PStruct (epath e) n
-      end
-  | Wn w => PWarn ""
-  | Rd _ => PWarn "?"
-  end.
 Definition show_prow (r : row) : string :=
   match r with
   | RField tn dp nm hx v _ =>
